@@ -261,6 +261,14 @@ var (
 // TruthFor imports the given captures in one shot with a fresh builder and returns the sorted
 // digests of the visible streams (ids ignored).
 func TruthFor(w *World, files []string) ([]string, error) {
+	// unreadable captures contain no stream
+	var readable []string
+	for _, f := range files {
+		if _, raw := RawCaptures[f]; !raw {
+			readable = append(readable, f)
+		}
+	}
+	files = readable
 	sort.Strings(files)
 	key := strings.Join(files, "+")
 	truthMu.Lock()
@@ -487,6 +495,9 @@ func ConvExpected(raw []ref.Chunk) string {
 
 func CheckC16(w *World, s *Snapshot, quiescent bool) []V {
 	var out []V
+	for _, d := range w.DetachedRuns {
+		out = append(out, V{"C16", "c16.job-for-detached-converter", d})
+	}
 	_, recs, err := TagTruth(s)
 	if err != nil {
 		return nil
